@@ -238,6 +238,9 @@ def classify(v):
     """Root cause grouping for known_findings.json (development time)."""
     import re
     d = v["detail"]
+    if v["kind"].startswith("print-parse") and d.get("kind") == "pos":
+        if re.search(r"\\([n'\"]|$)", d["value"][0]) is not None:
+            return "C04-mark-name-backslash"
     if v["kind"].startswith("print-parse") and d.get("kind") == "str":
         s = d["value"]
         if "\r" in s:
@@ -310,7 +313,7 @@ def routine_target_case(cid, case):
 
 
 INTS_QUICK = [0, 1, -1, 7, 8, 9, 10, 15, 16, 17, 99, 100, 255, 256, 1000, 32767, -32768, -255, 65535, 12345]
-POS_NAMES = ["m", "two words", "", "UPPER_1", "it's", 'say "x"', "two\nlines"]
+POS_NAMES = ["m", "two words", "", "UPPER_1", "it's", 'say "x"', "two\nlines", "back\\slash", "a\\n", "q\\'", 'd\\"', "end\\", "tab\tname"]
 
 
 def run(tier, seed):
